@@ -332,15 +332,25 @@ def replay_file(prop, path):
 # --------------------------------------------------------------------------------------------
 def describe_event(ev, verdicts):
     base = (" base=%r" % from_cps(ev["bs"][0])) if ev.get("bs") else ""
-    return "%s event input=%r%s: %s" % (ev.get("k"), from_cps(ev.get("in", [])), base, "; ".join(verdicts))
+    extra = ""
+    if ev.get("opt"):
+        extra = " option=%s" % ev["opt"]
+    if ev.get("prof"):
+        extra = " profile=%s" % ev["prof"]
+    if ev.get("sp"):
+        extra += " spellings=%r" % [from_cps(x) for x in ev["sp"][:4]]
+    return "%s event%s input=%r%s: %s" % (ev.get("k"), extra, from_cps(ev.get("in", [])), base, "; ".join(verdicts))
 
 
 def absorb_events(run, bad, family):
     seen_known = run.__dict__.setdefault("_seen_known", set())
     nviol = 0
+    tally = run.coverage_notes.setdefault("not_ok_classes", {})
     for ev, verdicts in bad:
         rest = []
         for v in verdicts:
+            key = "%s|%s|%s" % (ev.get("k"), ev.get("opt") or ev.get("prof") or ev.get("call") or "", v[:90])
+            tally[key] = tally.get(key, 0) + 1
             kf = findings.match(run.prop, {"what": "event", "event": ev, "verdict": v})
             if kf:
                 if kf["id"] not in seen_known:
@@ -718,3 +728,46 @@ def check_c20(run):
     return run.finish("exploration", "design half by TLC: the work model of the specification's parser is linear (WorkBound on every state; per-pump increment bounded); measured half: every "
                       "(control state, unit) cycle of the parser's state graph found by TLC (spec/MC_Pump.tla) x suffixes, plus the families the property names and API-level ones "
                       "(setters, SearchParams, four profiles), each measured at n and 4n; distinct_nontrivial = families measured")
+
+
+# --------------------------------------------------------------------------------------------
+# C16 - every option has its documented effect and is otherwise neutral
+# --------------------------------------------------------------------------------------------
+def opt_families(run):
+    q = run.tier == "quick"
+    L = filler_letter(run.seed)
+    inv = ["PtrOk", "TriggersSufficient"]
+    fams = [
+        Family("optmix", "/\\.%2|'\"`~ #?@:" + L, 2 if q else 3,
+               prefixes=["http://h/", "x://h/", "gopher://h:70/", "file:///", "x:", "http://h/?", "x://h/#", "http://h/#", "", "gopher:", "http://u:p@h:8", "ws://"][:12 if not q else 8],
+               bases=["http://u:p@b:81//p/./q?r#s"] if q else ["http://u:p@b:81//p/./q?r#s", "gopher://g/x"], invariants=inv),
+        Family("optpath", "/\\.%C|2e" + L, 3 if q else 4, prefixes=["http://h/", "file:", "file:///"], suffixes=["", "?a'b#c`d"] if not q else [""], invariants=inv),
+        Family("optquery", "&=a+'\"|~%b", 2 if q else 4, prefixes=["http://h/?", "x://h/?", "http://h/?b=2&a=1&"], suffixes=["", "#f|~\""], invariants=inv),
+        Family("optraw", [0x110080, 0x1100FF, ord(L), ord("/"), ord("%"), ord(".")], 3 if q else 4, prefixes=["http://h/", "http://", "x:"], invariants=["PtrOk"]),
+        Family("optnoscheme", L + "./:@?#", 3 if q else 4, prefixes=["", "h", "//"], invariants=inv),
+    ]
+    return fams
+
+
+def check_c16(run):
+    run.build_harness()
+    run.selftest()
+    for fam in opt_families(run):
+        mod = fam.write(run.scratch)
+        bad, n = run.tlc_events(mod, fam.name, "opt", cfg=mod + ".cfg", chunks=14)
+        run.samples.append("[%s/opt] %d composite events (input x option configuration) recorded from the real code" % (fam.name, n))
+        absorb_events(run, bad, fam.name)
+        run.distinct += n
+    # skip-equals: exact, through the list machine with the SkipEquals deviation switched on in both the spec and the real parser
+    names = ["", "a", "b"]
+    values = ["", "1"]
+    fam = ApiFamily("skip_equals", ["http://h/?a=&b=1&=", "x:o?a", "http://h/p"], sp_ops=sp_ops(names, values), depth=3, dev="DevSkipEq")
+    mod = fam.write(run.scratch)
+    S, M, st = run.tlc_replay(mod, fam.name, cfg=mod + ".cfg", replay_args=["--keys", "href,query,search", "--parser", "skip_equals"])
+    absorb(run, M, S, fam.name)
+    run.assumptions += ["experimental parser options are constrained only by the table of DESIGN.md 4/C16: neutrality outside the trigger, exact prediction where the effect is modelled "
+                        "(special schemes, the five replaced percent-encode sets, remove-*, default-scheme, skip-equals), otherwise the stated postcondition only"]
+    return run.finish("model_checking", "every input of five families built to contain both triggering and non-triggering cases x 22 option configurations (each option alone, and combined) "
+                      "is run on the real code next to the default parser and recorded as one composite event; TLC evaluates neutrality outside the trigger, exact predictions "
+                      "(specification run with the option record / the standard's setters) and postconditions; TLC also checks on the specification that each modelled trigger is "
+                      "sufficient; distinct = composite events")
